@@ -124,6 +124,36 @@ Theorem c17_rows_across_resume :
 Proof. exact cb_run_phases_spec. Qed.
 Print Assumptions c17_rows_across_resume.
 
+(* [row_reflects w e row]: row = the base row (trial id, decision, status, configuration, every
+   reported value, time stamp: [row_reflects_base] fixes every column) overridden / extended
+   by the columns the extra_results_composer returned for this call; no composer, or a
+   composer returning None, leaves the base row (the row is never dropped: rows stay 1:1). *)
+Theorem c17_row_cells :
+  forall (w : bool) (e : event),
+    exists base, row_reflects_base w e base /\
+      forall k, dget k (make_row w e) = match extra_binding e k with Some v => Some v | None => dget k base end.
+Proof. exact make_row_reflects. Qed.
+Print Assumptions c17_row_cells.
+
+Theorem c17_row_extra_columns :
+  forall e x k v, ev_extra e = Some x -> NoDup (map fst x) -> In (k, v) x -> extra_binding e k = Some v.
+Proof. exact extra_binding_in. Qed.
+Print Assumptions c17_row_extra_columns.
+
+Theorem c17_row_no_extra :
+  forall e k, match ev_extra e with Some x => ~ In k (map fst x) | None => True end -> extra_binding e k = None.
+Proof. exact extra_binding_none. Qed.
+Print Assumptions c17_row_no_extra.
+
+Example c17_row_extra_example :
+  let e x := {| ev_trial := 1; ev_status := 0; ev_result := [(KUser 0, VNum (Fin 2))]; ev_decision := 1;
+                ev_config := []; ev_clock := 3; ev_fire := false; ev_extra := x |} in
+  dget (KUser 5) (make_row true (e (Some [(KUser 5, VNum (Fin 9))]))) = Some (VNum (Fin 9)) /\
+  dget (KUser 0) (make_row true (e (Some [(KUser 5, VNum (Fin 9))]))) = Some (VNum (Fin 2)) /\
+  make_row true (e None) = make_row_base true (e None) /\
+  exists s, cb_run true [e (Some [(KUser 5, VNum (Fin 9))]); e None] = Some s /\ length (cb_results s) = 2%nat.
+Proof. vm_compute. repeat split. eexists. split; reflexivity. Qed.
+
 (* at any moment before the end the file (if written) holds a prefix of the rows *)
 Theorem c17_rows_disk_prefix :
   forall (add_wallclock_time : bool) (evs : list event) (s : cb_state),
@@ -192,7 +222,7 @@ Print Assumptions c17_deliver_all.
 Example c17_run_example :
   let r (x : Q) : dict := [(KUser 0, VNum (Fin x))] in
   let h t x := {| hi_trial := t; hi_result := r x; hi_status := 0; hi_config := [(0%nat, VNum (Fin 1))];
-                  hi_clock := 1; hi_fire := false |} in
+                  hi_clock := 1; hi_fire := false; hi_extra := None |} in
   let go := {| an_decision := 1; an_stops := false; an_exec_fails := false |} in
   let stop := {| an_decision := 2; an_stops := true; an_exec_fails := false |} in
   (* an old table on disk; trial 0 is stopped by its first result, its second result of the
@@ -216,6 +246,63 @@ Example c17_run_example :
   (* a second run under the same name that delivers nothing overwrites the table *)
   cb_disk (rs_cb (fst (fst (tuner_run true (Some [r 7; r 8]) [] [Started 0] (fun _ => false))))) = Some [].
 Proof. vm_compute. repeat split. Qed.
+
+(* ---- ONE Tuner object run several times ------------------------------------------
+   run(), then (larger stop criterion) run() again, ...: the callbacks and the TuningStatus
+   belong to the Tuner object and are carried from leg to leg.  For EVERY list of legs (each
+   with its own steps, scheduler answers and finally-faults): the table holds one row per
+   result delivered in ANY leg, in order, the file holds exactly these rows, and the
+   tuning status is the status of ALL results handed to the loop in all legs - so
+   c17_stats / c17_best_tuner / c17_best_config_attains speak about all legs. *)
+Theorem c17_run_legs :
+  forall (add_wallclock_time : bool) (old_disk : option (list dict)) (legs : list leg),
+    legs <> [] -> Forall leg_ok legs ->
+    let st := tuner_legs (tuner_new add_wallclock_time old_disk) legs in
+    cb_results (rs_cb st) = map (make_row add_wallclock_time) (legs_delivered legs) /\
+    Forall2 (row_reflects add_wallclock_time) (legs_delivered legs) (cb_results (rs_cb st)) /\
+    cb_disk (rs_cb st) = Some (cb_results (rs_cb st)) /\
+    rs_ts st = ts_run (legs_history legs).
+Proof. exact tuner_legs_table. Qed.
+Print Assumptions c17_run_legs.
+
+(* the first leg is exactly [tuner_run] *)
+Theorem c17_first_leg_is_run :
+  forall w old l, tuner_leg (tuner_new w old) l = tuner_run w old (lg_answers l) (lg_steps l) (lg_fails l).
+Proof. exact tuner_leg_first. Qed.
+Print Assumptions c17_first_leg_is_run.
+
+Example c17_run_legs_example :
+  let r (x : Q) : dict := [(KUser 0, VNum (Fin x))] in
+  let h t x := {| hi_trial := t; hi_result := r x; hi_status := 0; hi_config := []; hi_clock := 1; hi_fire := false;
+                  hi_extra := None |} in
+  let go := {| an_decision := 1; an_stops := false; an_exec_fails := false |} in
+  let nofail := fun _ : fin_step => false in
+  (* the optimum 1 is reported in the first leg, the second leg only sees 5 and 4 *)
+  let legs := [ {| lg_answers := [go; go]; lg_steps := [Started 0; Batch [0%Z] [h 0%Z 3; h 0%Z 1]]; lg_fails := nofail |};
+                {| lg_answers := [go; go]; lg_steps := [Started 1; Batch [1%Z] [h 1%Z 5; h 1%Z 4]]; lg_fails := nofail |} ] in
+  let st := tuner_legs (tuner_new true None) legs in
+  Forall leg_ok legs /\ length (cb_results (rs_cb st)) = 4%nat /\
+  st_count (ts_overall (rs_ts st)) = 4%nat /\
+  print_best (rs_ts st) (KUser 0) Min = Some (0%Z, Fin 1).
+Proof. vm_compute. repeat split; repeat constructor. Qed.
+
+(* ---- the data frame of the table: columns and cells ------------------------------
+   DataFrame(rows): the columns are exactly the keys that occur in SOME row (a key first
+   seen in a later row is a column too), each once; the cell of row r in column c is r's
+   value for c, or missing when r has no such key (or the value is NaN / None). *)
+Theorem c17_table_frame :
+  forall rows : list dict,
+    NoDup (columns rows) /\
+    (forall k, In k (columns rows) <-> exists r v, In r rows /\ dget k r = Some v) /\
+    (forall (is_na : value -> bool) r j, (j < length (columns rows))%nat ->
+       nth j (map (frame_cell is_na r) (columns rows)) None = frame_cell is_na r (nth j (columns rows) KTrialId)).
+Proof. exact frame_spec. Qed.
+Print Assumptions c17_table_frame.
+
+Example c17_table_frame_example :
+  columns [[(KUser 0, VNum (Fin 1))]; [(KUser 0, VNum (Fin 2)); (KUser 1, VNum (Fin 3))]] = [KUser 0; KUser 1] /\
+  map (frame_cell (fun _ => false) [(KUser 0, VNum (Fin 1))]) [KUser 0; KUser 1] = [Some (VNum (Fin 1)); None].
+Proof. vm_compute. split; reflexivity. Qed.
 
 (* ---- reading the table back from disk ----------------------------------------
    results.csv.zip = DataFrame(rows).to_csv, read with pd.read_csv.  Modelled: the columns
@@ -452,7 +539,7 @@ Example c17_example :
   st_count (ts_overall (ts_run hist)) = 8%nat /\
   aget key_eqb loss (st_sum (ts_overall (ts_run hist))) = Some NaN /\
   let e := {| ev_trial := 1; ev_status := 0; ev_result := r (VNum NaN); ev_decision := 1;
-              ev_config := [(0%nat, VNum (Fin (1#10)))]; ev_clock := 3; ev_fire := false |} in
+              ev_config := [(0%nat, VNum (Fin (1#10)))]; ev_clock := 3; ev_fire := false; ev_extra := None |} in
   (exists s, cb_run true [e; e] = Some s /\ length (cb_results s) = 2%nat /\
              dget KTunerTime (nth 0 (cb_results s) []) = Some (VNum (Fin 3))) /\
   exp_best_config [loss] (OneMode Min) (ByIndex 0)
